@@ -37,7 +37,10 @@
 (* Outcome = [e, w]: "ok" | "ValueError" | "Ambiguous" | "KeyError" and    *)
 (* the world afterwards.  kb selects the comment rule: "S" the statement,   *)
 (* "A" its other acceptable empty comment line, "K" the code as built      *)
-(* (open finding X17-blank-comment-line).                                  *)
+(* (open finding X17-blank-comment-line); "C" is the statement with a KEPT *)
+(* comment living on in a new element object (same lines): whether the     *)
+(* kept comment is the same OBJECT is not promised by the documentation -- *)
+(* accepted, reported as a diagnostic only.                                *)
 (*                                                                         *)
 (* STATEMENT (checked by TLC in FieldCommentMC.tla against these outcome   *)
 (* operators): a refused call changes nothing (ErrAtomic); a call on field *)
@@ -92,6 +95,7 @@ CONSTANT Neg        \* "" | "StoreBroken" | "ElemStays" | "MoveLeavesComment" | 
 NC(e, c, held, nh) == [e |-> e, c |-> c, held |-> held, nh |-> nh]
 NewComment(w, orig, amb, m, kb) ==
    LET same == NC("ok", orig, w.held, w.nh)
+       copy == NC("ok", [h |-> 0, ls |-> orig.ls], w.held, w.nh)     \* the same lines in a NEW element object
        err(x) == NC(x, orig, w.held, w.nh)
    IN CASE m.k \in {"confK", "confD"} -> err("ValueError")
         [] m.k = "list" ->
@@ -104,12 +108,13 @@ NewComment(w, orig, amb, m, kb) ==
              NC("ok", [h |-> m.h, ls |-> HeldLs(w.held, m.h)],
                 IF Neg = "ElemStays" THEN w.held ELSE HeldDel(w.held, m.h), w.nh)
         [] m.k = "self" ->
-             IF orig.h = 0 THEN NC("ok", [h |-> w.nh, ls |-> orig.ls], w.held, w.nh + 1) ELSE same
+             IF kb = "C" THEN copy
+             ELSE IF orig.h = 0 THEN NC("ok", [h |-> w.nh, ls |-> orig.ls], w.held, w.nh + 1) ELSE same
         [] m.k = "bad"  -> err("ValueError")
         [] m.k = "keep" -> IF amb THEN err("Ambiguous")
-                           ELSE IF Neg = "KeepCopies" THEN NC("ok", [h |-> 0, ls |-> orig.ls], w.held, w.nh) ELSE same
+                           ELSE IF Neg = "KeepCopies" \/ kb = "C" THEN copy ELSE same
         [] m.k = "drop" -> NC("ok", NoC, w.held, w.nh)
-        [] OTHER        -> same                                            \* "default"
+        [] OTHER        -> IF kb = "C" THEN copy ELSE same                 \* "default"
 
 \* set_field_to_simple_value / set_field_from_raw_string (key resolves, value accepted)
 SetOut(w, p, key, v, m, kb) ==
@@ -161,10 +166,8 @@ SortOut(w, p) ==
 
 \* constructors: a further paragraph of the caller
 NewOut(w)          == Oc("ok", Wd(Append(w.ps, <<>>), w.held, w.nh))
-DictFold(items)    == LET F[k \in 0..Len(items)] ==
-                             IF k = 0 THEN Wd(<<<<>>>>, <<>>, 1)
-                             ELSE SetOut(F[k - 1], 1, Key(items[k].n, items[k].s, NoIdx), items[k].v, Mode("default", <<>>, 0), "S").w
-                      IN F[Len(items)].ps[1]
+DictFold(items)    == FoldLeft(LAMBDA acc, it : SetOut(acc, 1, Key(it.n, it.s, NoIdx), it.v, Mode("default", <<>>, 0), "S").w,
+                               Wd(<< <<>> >>, <<>>, 1), items).ps[1]           \* (iterative: dicts of 100 items are validated)
 DictOut(w, items)  == Oc("ok", Wd(Append(w.ps, DictFold(items)), w.held, w.nh))
 \* from_kvpairs(list(p.iter_parts())) / reversed: the new paragraph takes the place of the donor
 KvOut(w, p, rev)   ==
